@@ -256,6 +256,8 @@ class Engine:
             if adt and adt["kind"] == "enum" and len(adt["variants"]) == 1 and not adt["variants"][0]["fields"]:
                 return ("agg", "adt", ty, adt["variants"][0]["name"], ())
             return ("const", ty, ("zst", c["s"]))
+        if c.get("static"):
+            return ("const", ty, ("static", c["static"]))      # the address of a `static` item
         if c.get("uneval") and c.get("promoted") is None:
             v = self.const_item_value(c["uneval"])
             if v is not None:
@@ -279,6 +281,37 @@ class Engine:
             if len(ps) == 1 and isinstance(ps[0].ret, tuple) and ps[0].ret[0] in ("agg", "const") and \
                     not any(isinstance(x, tuple) and x and x[0] in ("ref", "call", "param") for x in subterms(ps[0].ret)):
                 self._promoted[ck] = ps[0].ret
+        return self._promoted[ck]
+
+    def lazy_static_value(self, key):
+        """value of `static KEY: LazyLock<T> = LazyLock::new(<closure or fn>)`: the single return value of the initialiser"""
+        ck = ("lazy-static", key)
+        if ck in self._promoted:
+            return self._promoted[ck]
+        self._promoted[ck] = None
+        body = self.facts.bodies.get(key)
+        if body is None or not str(body.get("def_kind", "")).startswith("Static"):
+            return None
+        sub = Engine(self.facts, inline=lambda fn, b: False, max_depth=self.max_depth)
+        try:
+            ps = [p for p in sub.run(body) if p.outcome == "return"]
+        except Budget:
+            return None
+        if len(ps) != 1 or ps[0].ret[0] != "call" or not ps[0].ret[1].endswith(("LazyLock::<T, F>::new", "LazyCell::<T, F>::new")):
+            return None
+        init = ps[0].ret[2][0]
+        while isinstance(init, tuple) and init and init[0] == "cast":
+            init = init[2]
+        ib = self.closure_body(init) if init[0] == "agg" else self.facts.bodies.get(init[1]) if init[0] == "fn" else None
+        if ib is None:
+            return None
+        sub2 = Engine(self.facts, inline=self.inline_pred, models=self.models, max_depth=self.max_depth)
+        try:
+            rs = [p for p in sub2.run(ib) if p.outcome == "return"]
+        except Budget:
+            return None
+        if len(rs) == 1:
+            self._promoted[ck] = rs[0].ret
         return self._promoted[ck]
 
     def cell_initial(self, cell):
@@ -1159,6 +1192,20 @@ def m_identity_deref(eng, st, fr, fn, args, t):
     a = args[0]
     sty = fn.get("self_ty") or fn.get("impl_self") or ""
     base = sty.split("<")[0]
+    if base in ("std::sync::lazy_lock::LazyLock", "core::cell::lazy::LazyCell"):
+        # `static X: LazyLock<T> = LazyLock::new(|| init)`: *X is the value `init` returns (a straight-line initialiser is
+        # summarised once per static; anything else stays opaque)
+        st_id = next((x[2][1] for x in subterms(a) if is_const(x) and isinstance(x[2], tuple) and x[2][0] == "static"), None)
+        if st_id is None and a[0] == "ref":
+            cur = eng.read_loc(st, a[1], a[2])
+            st_id = next((x[2][1] for x in subterms(cur) if is_const(x) and isinstance(x[2], tuple) and x[2][0] == "static"), None)
+        v = eng.lazy_static_value(st_id) if st_id else None
+        if v is None:
+            return None
+        cell = ("M", ("lazy", st_id))
+        if cell not in st.store:
+            st.store[cell] = v
+        return _ret(st, ("ref", cell, (), False))
     if base in ("alloc::vec::Vec", "alloc::boxed::Box", "alloc::string::String"):
         if a[0] == "ref":
             return _ret(st, a)
